@@ -51,6 +51,39 @@ func init() {
 	})
 }
 
+// zeroRegion: the zero branch of release function f plus, for helper extraction,
+// the bodies of methods called from it on the same receiver.
+type regionPart struct {
+	f  *ssa.Function
+	in func(*ssa.BasicBlock) bool
+}
+
+func zeroRegion(c *Ctx, f *ssa.Function) []regionPart {
+	in := zeroBranch(f)
+	if in == nil {
+		return nil
+	}
+	parts := []regionPart{{f, in}}
+	if len(f.Params) == 0 {
+		return parts
+	}
+	recv := f.Params[0]
+	eachInstr(f, func(i ssa.Instruction) {
+		call, ok := i.(*ssa.Call)
+		if !ok || !in(i.Block()) {
+			return
+		}
+		h := call.Call.StaticCallee()
+		if h == nil || h.Pkg != c.Moss || h.Blocks == nil || h == f || len(call.Call.Args) == 0 {
+			return
+		}
+		if call.Call.Args[0] == ssa.Value(recv) && h.Signature.Recv() != nil && !isExportedRoot(h) {
+			parts = append(parts, regionPart{h, func(*ssa.BasicBlock) bool { return true }})
+		}
+	})
+	return parts
+}
+
 // fieldsRead: names of the fields of struct type tn read in the given blocks of f (nil = all blocks).
 func fieldsRead(f *ssa.Function, tn string, in func(*ssa.BasicBlock) bool) map[string]bool {
 	out := map[string]bool{}
@@ -140,15 +173,21 @@ func ruleCov(c *Ctx) []*Ob {
 	}
 	for _, p := range pairs {
 		fb := c.Fn(p.b)
-		var in func(*ssa.BasicBlock) bool
+		covB := map[string]bool{}
 		if p.zeroOfB {
-			in = zeroBranch(fb)
-			if in == nil {
+			parts := zeroRegion(c, fb)
+			if parts == nil {
 				o.add(p.b, "zero branch", c.pos(fb.Pos()), false, "anchor lost: no `refs <= 0` branch found in the release function")
 				continue
 			}
+			for _, part := range parts {
+				for k := range fieldsRead(part.f, p.tn, part.in) {
+					covB[k] = true
+				}
+			}
+		} else {
+			covB = fieldsRead(fb, p.tn, nil)
 		}
-		covB := fieldsRead(fb, p.tn, in)
 		covA := map[string]bool{}
 		if p.aFields != nil {
 			for _, x := range p.aFields {
@@ -320,54 +359,57 @@ func ruleRef3(c *Ctx) []*Ob {
 	}
 	releaseNames := map[string]bool{"Close": true, "DecRef": true, "decRef": true, "Unmap": true}
 	for _, r := range table {
-		f := c.Fn(r.fn)
-		in := zeroBranch(f)
-		if in == nil {
-			o.add(r.fn, "zero branch", c.pos(f.Pos()), false, "anchor lost: no `refs <= 0` branch in the release function")
+		f0 := c.Fn(r.fn)
+		parts := zeroRegion(c, f0)
+		if parts == nil {
+			o.add(r.fn, "zero branch", c.pos(f0.Pos()), false, "anchor lost: no `refs <= 0` branch in the release function")
 			continue
 		}
 		for _, fld := range r.owning {
 			found := false
 			var at ssa.Instruction
-			eachInstr(f, func(i ssa.Instruction) {
-				ci, ok := i.(ssa.CallInstruction)
-				if !ok || !in(i.Block()) {
-					return
-				}
-				cc := ci.Common()
-				name := ""
-				var recv ssa.Value
-				if cc.IsInvoke() {
-					name, recv = cc.Method.Name(), cc.Value
-				} else if sf := cc.StaticCallee(); sf != nil && len(cc.Args) > 0 {
-					name, recv = sf.Name(), cc.Args[0]
-				}
-				if !releaseNames[name] || recv == nil {
-					return
-				}
-				hit := backSlice(recv, func(v ssa.Value) bool {
-					fv, base := loadedField(v)
-					if fv != nil && fv.Name() == fld && typeName(base.Type()) == r.tn {
-						return true
+			for _, part := range parts {
+				f, in := part.f, part.in
+				eachInstr(f, func(i ssa.Instruction) {
+					ci, ok := i.(ssa.CallInstruction)
+					if !ok || !in(i.Block()) {
+						return
 					}
-					// address-of field used as pointer receiver: (*T).M(&x.f)
-					if fa, ok := v.(*ssa.FieldAddr); ok {
-						if av := fieldAddrVar(fa); av != nil && av.Name() == fld && typeName(fa.X.Type()) == r.tn {
+					cc := ci.Common()
+					name := ""
+					var recv ssa.Value
+					if cc.IsInvoke() {
+						name, recv = cc.Method.Name(), cc.Value
+					} else if sf := cc.StaticCallee(); sf != nil && len(cc.Args) > 0 {
+						name, recv = sf.Name(), cc.Args[0]
+					}
+					if !releaseNames[name] || recv == nil {
+						return
+					}
+					hit := backSlice(recv, func(v ssa.Value) bool {
+						fv, base := loadedField(v)
+						if fv != nil && fv.Name() == fld && typeName(base.Type()) == r.tn {
 							return true
 						}
+						// address-of field used as pointer receiver: (*T).M(&x.f)
+						if fa, ok := v.(*ssa.FieldAddr); ok {
+							if av := fieldAddrVar(fa); av != nil && av.Name() == fld && typeName(fa.X.Type()) == r.tn {
+								return true
+							}
+						}
+						return false
+					})
+					if hit {
+						found = true
+						at = i
 					}
-					return false
 				})
-				if hit {
-					found = true
-					at = i
-				}
-			})
+			}
 			construct := "zero branch releases " + r.tn + "." + fld
 			if found {
 				o.add(r.fn, construct, c.instrPos(at), true, "released when the count reaches zero")
 			} else {
-				o.add(r.fn, construct, c.pos(f.Pos()), false,
+				o.add(r.fn, construct, c.pos(f0.Pos()), false,
 					"when the last reference goes, "+r.tn+"."+fld+" is not released: the resource below it leaks (mapping / descriptor / lower-level snapshot stays open)")
 			}
 		}
